@@ -207,6 +207,8 @@ def reference(case, grid):
         if not np.isfinite(t):
             return [None]
         bw = (hi - lo) / n
+        if not (np.isfinite(bw) and bw > 0):
+            return [None]  # no valid grid: reported by the grid clause
         if t == lo and tol == EDGE_TOL:
             return [0]
         f = (t - lo) / bw
